@@ -23,7 +23,8 @@ ASSUMPTIONS = [
 ]
 
 ALPHA = ["a", "<", ">", "&", "\"", "'", "é", " ", "\n", "]"]
-WORDS = ["]]>", "&amp;", "<para>", "\U0001F600", "a  b", " a ", "&#38;", "<!--", "</a>"]
+WORDS = ["]]>", "&amp;", "<para>", "\U0001F600", "a  b", " a ", "&#38;", "<!--", "</a>",
+         "Pre&amplifier", "B&ltd", "Q&gt x", "R&D", "&am", "&#", "&;", "a]]>b<c", "<para", "para>", "&lt", "&gt", "&amp"]
 EML_EXCLUDED = ("&amp;", "&lt;", "&gt;", "<para>", "</para>")
 NAMES = ["a", "b", "a-b.c_1", "é_n"]
 
